@@ -9,19 +9,64 @@ T = {
          "Seeded + partly enumerated exploration of dependency graphs on the real container; identity of every injected value against the registered instance and against by-name lookup. Holds on the graphs/orders explored, nothing beyond.", "5 C01"),
  "C02": ("exploration", "runtime monitoring: step-budget divergence monitor on the singleton registry + reference-model wiring oracle over enumerated and random digraphs",
          "Every digraph on 3 (thorough: 4) nodes at every rotation and edge kind, plus random large cyclic graphs, started on the real container; termination decided in logical steps, wiring compared per point with an independent model.", "5 C02"),
+ "C03": ("exploration", "runtime monitoring: version-identity monitor under a substituting post-processor (all wrap timings) over cyclic graphs",
+         "Seeded cyclic graphs x wrapped subsets x wrap timings x orders on the real container; after every successful start each holder's version is compared with the published one.", "5 C03"),
+ "C04": ("exploration", "runtime monitoring: offline trace conformance of recorded registry histories against a sequential per-name state machine",
+         "Histories recorded at the SingletonComponentRegistry interface (generated protocol-respecting client driving the real registry + traced real starts continued after failures) checked exactly (sequential histories) against the cache protocol.", "5 C04"),
+ "C05": ("exploration", "runtime monitoring: offline checker over a per-start lifecycle event log (logical clock) written by components and observing post-processors",
+         "Seeded graphs / lazy-eager mixes / post-processor sets on the real container; exactly-once, ordering, populate-before-init and dependencies-first decided on the recorded events and the observed wiring.", "5 C05"),
  "C06": ("exploration", "runtime monitoring: reference-model oracle (set comprehension over the observed population) vs black-box wiring observation",
          "Seeded populations x consumer kinds x orders on the real container; per-point soundness and completeness against an independent model.", "5 C06"),
  "C07": ("exploration", "runtime monitoring: reference-model oracle for by-name points + duplicate-registration monitor on the real registry",
          "Seeded name x type x field-kind space incl. absent and incompatible names, required/optional, on the real container; panics are violations.", "5 C07"),
  "C08": ("exploration", "runtime monitoring: per-field reference-model oracle with cross-field interference workloads",
          "Seeded multi-field holders mixing qualified / Primary / optional-unsatisfiable points in all positions under permuted candidate orders.", "5 C08"),
+ "C09": ("fault_enumeration", "runtime monitoring with fault injection: every single fault site of each generated scenario is injected (one start each) and judged by outcome / event-log oracles with step budgets",
+         "Per scenario the complete list of single fault sites (required points, config keys, Init/AfterPropertiesSet, every post-processor callback kind x component, scanner x component, factory post-processor, loaders, runners) is enumerated and injected, plus seeded pairs; scenarios are sampled.", "5 C09"),
+ "C10": ("exploration", "runtime monitoring: differential runs of one scenario under enumerated / seeded registration, enumeration and candidate orders + reference model for tied sets",
+         "Each scenario is started 12-24 times under controlled orders (all permutations of candidate sets up to 4); outcomes and determined points must agree.", "5 C10"),
+ "C11": ("exploration", "runtime monitoring: metamorphic comparison (flat vs embedded re-arrangements of run-time built struct types) + sentinel frame checker + recording tag processor",
+         "Seeded leaf multisets in flat and nested reflect.StructOf arrangements on the real container; equal leaf values, exact property delivery, untouched sentinels.", "5 C11"),
+ "C12": ("exploration", "runtime monitoring: contract predicate over sorter outputs and over invocation logs of real starts",
+         "Seeded participant multisets through the real sorter and real starts with logging post-processors, runners and loaders of all classes.", "5 C12"),
+ "C13": ("exploration", "runtime monitoring: offline checker over the per-start event log (runner events vs lifecycle events) with injected runner failures",
+         "Seeded runner sets among other components, each choice of failing runner; exactly-once, after-ready, order and stop-at-first-error decided on recorded events.", "5 C13"),
+ "C14": ("exploration", "runtime monitoring: gated closers + event-log sampling at the return of App.Close, repeated under the race detector",
+         "Seeded closer sets with gates inside their Close methods (released in seeded orders only once all have begun), error subsets; sampled exactly when Close returns; same workload on a -race build.", "5 C14"),
+ "C15": ("exploration", "runtime monitoring: independent deep-merge model vs App.Get / prefix-bound fields over generated sources and option sequences",
+         "Seeded source sets (raw, file, args, ordered, priority-ordered) and option sequences on the real container; every path compared with the model.", "5 C15"),
+ "C16": ("exploration", "runtime monitoring: model resolver + literal twins, Binder.Get step budget as divergence monitor",
+         "Seeded tag texts x configurations incl. reference cycles on the real container; replacement text against an independent resolver, termination decided in logical steps.", "5 C16"),
+ "C17": ("exploration", "runtime monitoring: typed expectations from the generator's own document + prefix/value/prop twin comparison over hostile values",
+         "Seeded hostile values x compatible targets bound three ways on the real container.", "5 C17"),
+ "C18": ("exploration", "runtime monitoring: differential against direct evaluation by the expression library and a directly constructed validator (biconditional)",
+         "Seeded expressions with placeholder operands/operators and value x constraint pairs on the real container.", "5 C18"),
+ "C19": ("exploration", "runtime monitoring: seeded + mutation fuzzing under recover() for totality, independent reference parser for faithfulness, end-to-end starts",
+         "Seeded byte strings / grammar strings / mutated structured tags through the real parser; structured tags against a reference parser; generated tags on run-time built holders.", "5 C19"),
+ "C20": ("exploration", "Go race detector over gated concurrent start/shutdown workloads + porcupine linearizability checking of recorded histories",
+         "A -race build runs starts with overlapping scanner failures and concurrent closers (reports parsed from the GORACE log); histories of the concurrent map/set utilities recorded at the client boundary are checked by porcupine per key.", "5 C20"),
 }
 NOTE = {
  "C01": "trusted: reflection-based observer, the verif hook only swaps registries for wrappers; sampled quantifiers",
  "C02": "trusted: step budget formula as divergence criterion; model in harness/world/model.go",
+ "C03": "trusted: wrappers only for interface-typed slots; statement constrains successful starts only",
+ "C04": "trusted: tracer wraps every interface method; client never re-enters a name without early factory",
+ "C05": "trusted: event log written from harness callbacks; post-processor components themselves are out of scope",
  "C06": "trusted: model in harness/world/model.go; func-tag matching only with string results",
  "C07": "trusted: model; silent-drop logger level not exercised",
  "C08": "trusted: model; silent where the statement is silent (two Primaries)",
+ "C09": "trusted: model-based reachedness (certainly created / certainly not); pairs sampled",
+ "C10": "trusted: model for tied sets; map-iteration and scan scheduling only sampled by repetition",
+ "C11": "trusted: reflect.StructOf shapes only; unsafe used inside the harness to pre-fill unexported decoys",
+ "C12": "trusted: class of a participant derived from its Go interfaces by the harness",
+ "C13": "trusted: event log; tie-tolerant prefix rule for failing runners",
+ "C14": "trusted: gates live in harness-supplied Close methods; fallback delay never decides a verdict",
+ "C15": "trusted: yaml.v3 for generating documents; one loader per (class, Order)",
+ "C16": "trusted: model resolver; budget of 20000 Binder.Get calls",
+ "C17": "trusted: yaml.v3 round trip; any-typed targets excluded",
+ "C18": "trusted: expr and validator libraries (used as reference)",
+ "C19": "trusted: reference parser; watchdog for non-termination of the parser",
+ "C20": "trusted: Go race detector, porcupine v1.3.0; schedules sampled",
 }
 props = [json.loads(l) for l in open(base + "/properties.jsonl")]
 checks, na = [], []
